@@ -1,6 +1,7 @@
 mod auth;
 mod checks;
 mod common;
+mod journal;
 mod sim;
 
 use sim::explore::{ExploreOpts, explore};
@@ -21,6 +22,7 @@ fn main() {
                 "C01" | "C02" | "C03" | "C05" | "C06" | "C07" | "C08" | "C09" | "C13" | "C14" | "C04" => {
                     checks::check_sim(&prop, &tier)
                 }
+                "C10" | "C11" | "C12" => journal::check(&prop, &tier),
                 "C20" => auth::check(&prop, &tier),
                 _ => {
                     eprintln!("no check registered for {prop}");
@@ -32,6 +34,17 @@ fn main() {
         Some("sim") => cmd_sim(&args[2..]),
         Some("bench") => cmd_bench(&args[2..]),
         Some("trace") => cmd_trace(&args[2..]),
+        Some("journal-all") => {
+            let tier = args.get(2).cloned().unwrap_or_else(|| "quick".into());
+            let (found, stats) = journal::run(&tier, std::time::Instant::now() + std::time::Duration::from_secs(1500));
+            println!("journals={} prefixes={} restores={} torn={} prunes={} states={} capped={}", stats.journals, stats.prefixes, stats.restores, stats.torn_cuts, stats.prunes, stats.states, stats.capped);
+            for m in stats.machinery.iter().take(5) { println!("MACHINERY {m}"); }
+            for v in &found {
+                println!("VIOLATION {} : {}", v.signature(), v.detail.chars().take(300).collect::<String>());
+                println!("    scenario {} history {}", v.replay["scenario"]["name"], v.replay["history_text"]);
+            }
+            0
+        }
         _ => {
             eprintln!("usage: hqmc sim <scenario> [props]");
             2
